@@ -1,0 +1,12 @@
+//go:build verif
+
+package local
+
+import "github.com/AliceO2Group/Control/configuration/cfgbackend"
+
+// VerifC20NewServiceWithSource builds a Service over an arbitrary backend.
+// Verification harness only (build tag `verif`): lets /verif wrap a real
+// cfgbackend.Source in a recorder to observe the order of existence probes.
+func VerifC20NewServiceWithSource(src cfgbackend.Source) *Service {
+	return &Service{src: src}
+}
